@@ -1,4 +1,6 @@
 import SasLexer.Proofs.Tables
+import SasLexer.Proofs.Model.FinClosers
+import SasLexer.Properties.C03
 /-!
 # C10 — paired and grouped tokens are balanced: theorems
 
@@ -10,6 +12,15 @@ followed, after hidden tokens, by `(` on its channel provided nothing is pushed 
 (which is what the `fix:` for `%do %builtin…` restored).  String-expression balance relies on
 `finalize_lexing` closing every `StringExpr` mode (restored by the `fix:` for the extra pop).
 Both are decided per run by `Spec.C10` on implementation dumps of every truncation stream.
+
+Proved for the model, **every input, both profiles** (`C10_model_closers`): the clause `closers-supplied` —
+"missing closers are supplied as virtual tokens and reported".  `Proofs/Model/Fin.lean` gives a third,
+deterministic abstract semantics `fwp` over the projection (type, channel, byte of every token; error kinds; mode
+stack; pending-token and cursor byte) with its soundness theorem `fwp_sound`; `Proofs/Model/FinClosers.lean`
+evaluates `finalize_lexing` in it for every mode stack (`finalizeMode_fwp`, `finalizeLoop_fwp`, by induction on the
+stack) and relates the result to the specification's own computation of what is owed (`Rep.step`):
+`finalizeLexing_closers`.  The theorem became provable with the `fix:` that removed the second pop under an open
+string expression (F12, 5301e1d); before it the model, like the code, lost the `)` owed for `%eval((1+"`.
 -/
 namespace SasLexer
 
@@ -38,5 +49,106 @@ example : Spec.C10 "%do%scan(a,1)=1 %to 2;".toList (modelDump ⟨true, false, fa
 example : Spec.C10 "%eval((1+\"".toList (modelDump ⟨false, false, false⟩ "%eval((1+\"".toList) = [] := by decide +kernel
 example : ((modelDump ⟨true, false, false⟩ "%m(a=(\"".toList).toks.map (·.ty)) =
     [.MacroIdentifier, .LPAREN, .MacroString, .ASSIGN, .MacroString, .StringLiteral, .RPAREN, .RPAREN, .EOF] := by decide +kernel
+
+
+section closers
+open Spec.C10
+theorem TokenType.ofNat?_toNat (t : TokenType) : TokenType.ofNat? t.toNat = some t := by
+  cases t <;> decide +kernel
+
+theorem intoDetached_toks_of_eof (cfg : Cfg) (L : Lexer) (h : ∃ t ts, L.toksR = t :: ts ∧ t.ty = .EOF) :
+    (L.intoDetached cfg).1.toks = L.toksR.reverse := by
+  obtain ⟨t, ts, hts, hty⟩ := h
+  unfold Lexer.intoDetached
+  have e : (if L.linesR.isEmpty = true then (L.bufAddLine cfg 0 0).2 else L).toksR = L.toksR := by split <;> rfl
+  generalize (if L.linesR.isEmpty = true then (L.bufAddLine cfg 0 0).2 else L) = L1 at e
+  simp only
+  rw [hts] at e
+  simp only [e, hty, if_true, hts]
+
+theorem run_unit_some (cfg : Cfg) (p : Prog Unit) (L : Lexer) (h : (Prog.run cfg p L).2.panicked = none) :
+    (Prog.run cfg p L).1 = some () := by
+  cases hr : (Prog.run cfg p L).1 with
+  | none => exact absurd h (run_none_panicked cfg p L hr)
+  | some a => rfl
+
+theorem lexProgram_closers (cfg : Cfg) (s : List Char) :
+    match (lexProgram cfg s).ending with
+    | some .eof => ∃ sn, (lexProgram cfg s).snap = some sn ∧
+        closersOfSnap sn (lexProgram cfg s).buf.toks (lexProgram cfg s).final.errsR.reverse = true
+    | some .detected => (lexProgram cfg s).snap = none
+    | _ => True := by
+  unfold lexProgram
+  simp only
+  generalize hR : Prog.run cfg (mainLoop cfg (budgetMul * (Lexer.new cfg s).srcLen + 64) 0 ((Lexer.new cfg s).srcLen, [Mode.default]))
+    (Lexer.new cfg s) = R
+  obtain ⟨ra, L1⟩ := R
+  cases ra with
+  | none => trivial
+  | some en =>
+    obtain ⟨e, n⟩ := en
+    simp only
+    by_cases hdet : e = .detected
+    · subst hdet
+      simp only [beq_self_eq_true, if_true]
+      cases L1.panicked <;> first | trivial | rfl
+    · have hb : (e == LoopEnd.detected) = false := by simpa using hdet
+      simp only [hb, Bool.false_eq_true, if_false]
+      cases hp2 : (Prog.run cfg (finalizeLexing cfg) L1).2.panicked with
+      | some m => trivial
+      | none =>
+        simp only
+        cases e with
+        | detected => exact absurd rfl hdet
+        | budget => trivial
+        | eof =>
+          simp only
+          refine ⟨_, rfl, ?_⟩
+          have h1 := run_unit_some cfg _ L1 hp2
+          obtain ⟨⟨c, rest, hhead⟩, hcl⟩ := finalizeLexing_closers cfg L1 h1
+          generalize hL2 : (Prog.run cfg (finalizeLexing cfg) L1).2 = L2 at hhead hcl
+          have heof : ∃ t ts, L2.toksR = t :: ts ∧ t.ty = .EOF := by
+            simp only [FS.of] at hhead
+            cases hl : L2.toksR with
+            | nil => simp [hl] at hhead
+            | cons t ts => simp [hl] at hhead; exact ⟨t, ts, rfl, hhead.1.1⟩
+          simp only [closersOfSnap, snapshotOf]
+          rw [intoDetached_toks_of_eof cfg L2 heof, intoDetached_errs]
+          simp only [List.reverse_reverse]
+          have e1 : (Option.map (fun x => x.ty.toNat) L1.toksR.head?).bind TokenType.ofNat? =
+              Option.map (fun x => x.ty) L1.toksR.head? := by
+            cases hl : L1.toksR with
+            | nil => rfl
+            | cons t ts => simp [TokenType.ofNat?_toNat]
+          rw [e1]
+          simpa [FS.of] using hcl
+
+theorem closersSupplied_emptyDump (o : Outcome) : closersSupplied (emptyDump o) = true := by
+  cases o <;> rfl
+
+/-- **C10, clause `closers-supplied`, for the model: every input, both profiles.** -/
+theorem C10_model_closers (cfg : Cfg) (s : List Char) : closersSupplied (modelDump cfg s) = true := by
+  unfold modelDump
+  split
+  · exact closersSupplied_emptyDump _
+  · have h := lexProgram_closers cfg s
+    generalize lexProgram cfg s = r at h
+    simp only
+    cases he : r.ending with
+    | none => simp only; split <;> exact closersSupplied_emptyDump _
+    | some e =>
+      rw [he] at h
+      simp only
+      cases e with
+      | budget => simp only [closersSupplied, dumpOfBuf, beq_self_eq_true, if_true]
+      | detected => simp only at h; simp only [closersSupplied, dumpOfBuf, h]; split <;> simp_all
+      | eof =>
+        simp only at h
+        obtain ⟨sn, hsn, hc⟩ := h
+        have hb2 : (LoopEnd.eof == LoopEnd.budget) = false := rfl
+        simp only [closersSupplied, dumpOfBuf, hsn, hb2, Bool.false_eq_true, if_false]
+        exact hc
+
+end closers
 
 end SasLexer
